@@ -38,7 +38,7 @@ META = {
                   "backend and Connect documents that error handling is the caller's; the spec accepts that outcome for "
                   "that API only (ConnectWithIndication must reach a fallback). Expectations on the resulting server are "
                   "only stated for quiescent points reached by a single request, by rejections only, by successes only, or "
-                  "by a kick only, for a player that was connected (and, for failures and kicks, on a server) at the previous quiescent point; every quiescent point is checked for one open backend / list consistency. Calls that never return are counted, not judged (the statement is about safety). Observations "
+                  "by a kick only, for a player that was connected (and, for failures and kicks, on a server) at the previous quiescent point; every quiescent point is checked for one open backend / list consistency. Calls that never return are counted, not judged (the statement is about safety), with one exception: a call whose request context the caller cancelled while the backend was silent in login (or, legacy clients, before JoinGame) must have returned 6 s later, else the run is rejected. Observations "
                   "wait up to 6 s for the proxy to settle; schedules that cannot be forced as given are run to the end "
                   "anyway and judged as the executions they are.",
     "technique": "TLA+ abstract spec + code-shaped model, TLC model checking, TLC schedule export, forced replay on a live "
@@ -53,7 +53,7 @@ CONSTANTS
   Try1 = "s1"
   Try2 = "s3"
   Apis = {"connect", "indication"}
-  Behs = {"accept", "refuse", "kicklogin", "kickmid", "stall", "hang"}
+  Behs = {"accept", "refuse", "kicklogin", "kickmid", "stall", "hang", "cancel", "cancelmid"}
   Atomic = FALSE
   StaleClears = TRUE
   KickClears = TRUE
@@ -130,6 +130,8 @@ def patterns(s):
         elif k == "d" and phase.get(t) == "dial":
             phase[t] = "wait"
         elif k == "b":
+            if s["prog"][t]["beh"] in ("cancel", "cancelmid") and phase.get(t) in ("wait", "dial"):
+                out.add("caller-cancels-" + ("in-login" if s["prog"][t]["beh"] == "cancel" else "before-joingame"))
             phase[t] = "after"
         elif k == "x":
             out.add("client-breaks-while-switch-completes")
@@ -231,6 +233,9 @@ def key_of(rj):
         if dials and dials[-1].get("phase") == "held":
             return "request-admitted-while-attempt-live:first-attempt-still-dialing"
         return "request-admitted-while-attempt-live"
+    if ev == "stuck":
+        ph = [r.get("phase") for r in before if r.get("ev") == "cancel" and r.get("t") == bad.get("t")]
+        return "cancelled-request-never-returned:%s:%s" % (cfg, ph[-1] if ph else "?")
     if ev == "chk":
         return "check-answer-%s-not-allowed:%s" % (bad.get("res"), cfg)
     if ev == "ret":
@@ -310,14 +315,14 @@ def run(ctx):
 
     three = '"t1", "t2", "t3"'
     pool = []
-    for seq, n in (("TRUE", ctx.pick(250, 2500)), ("FALSE", ctx.pick(600, 6000))):
+    for seq, n in (("TRUE", ctx.pick(200, 2500)), ("FALSE", ctx.pick(500, 6000))):
         g = ctx.tlc("SwitchImpl", cfg_text=GEN % (three, seq), workers=1, simulate=n, depth=30, count=False, timeout=1200)
         got = g.printed_json("SCHED")
         for s in got:
             s["sequential"] = seq == "TRUE"
         pool += got
     rnd = random.Random(ctx.seed)
-    scheds = select(pool, ctx.pick(45, 300), rnd, ctx.pick(2, 20), ctx.pick(16, 110), ctx.pick(2, 12))
+    scheds = select(pool, ctx.pick(38, 300), rnd, ctx.pick(1, 20), ctx.pick(12, 110), ctx.pick(2, 12))
     for i, s in enumerate(scheds):
         s["ver"] = (763, 765)[(i + ctx.seed) % 2]
     # a client that breaks while a switch completes matters most for clients without a configuration
@@ -327,9 +332,16 @@ def run(ctx):
         if any(x["k"] == "x" for x in s["sched"]):
             s["ver"] = (763, 765)[nx % 2]
             nx += 1
+    nc = 0
+    for s in scheds:
+        if "caller-cancels-before-joingame" in patterns(s):
+            s["ver"] = 763      # 1.20.2+ has no request-context watcher after the login (counted, not judged)
+        elif "caller-cancels-in-login" in patterns(s):
+            s["ver"] = (763, 765)[nc % 2]
+            nc += 1
     # the player's first connection with the forced order "acknowledgement; backend's JoinGame; handler
     # installed" (1.20.2+ clients only: older ones have no configuration phase)
-    for ver in ctx.pick((765, 767), (764, 765, 766, 767, 774)):
+    for ver in ctx.pick(((765, 767)[ctx.seed % 2],), (764, 765, 766, 767, 774)):
         scheds.append({"prog": {}, "sched": first_scheds[0]["sched"], "ver": ver, "first": True, "sequential": True})
     nseq = sum(1 for s in scheds if s["sequential"])
     ctx.log("schedules: %d (of %d simulated), %d sequential, %d with a kick"
@@ -344,6 +356,8 @@ def run(ctx):
         ctx.log("schedules the rig could not set up (no verdict): %s" % st["skipped"][:4])
     if st["runs"] < 0.8 * len(scheds):
         raise vlib.ToolError("only %d of %d schedules could be driven: %s" % (st["runs"], len(scheds), (st.get("skipped") or [])[:4]))
+    if not st.get("request_contexts_cancelled"):
+        raise vlib.ToolError("vacuous: no request context was ever cancelled by the schedule")
     if not st.get("runs_with_client_break_held_at_switch_completion"):
         raise vlib.ToolError("hook_missing: no client break was ever held at gate point sw.switching")
     if not st.get("first_connection_runs_held_at_ack"):
@@ -378,6 +392,7 @@ def run(ctx):
         "sequential_schedules": nseq,
         "runs_with_overlapping_calls": st["runs_with_overlapping_calls"],
         "diverged_schedules": st["diverged"],
+        "request_contexts_cancelled": st.get("request_contexts_cancelled", 0),
         "first_connection_runs_held_at_ack": st.get("first_connection_runs_held_at_ack", 0),
         "client_breaks_held_at_switch_completion": st.get("runs_with_client_break_held_at_switch_completion", 0),
         "runs_with_a_call_that_never_returned": st["unfinished"],
